@@ -418,6 +418,34 @@ func serGen(g *G, tier string) []M {
 			ops = append(ops, M{"op": "serSeq", "fmt": string(f), "docs": []any{M{"doc": d, "nils": []any{}, "indent": 2.0}, M{"doc": d, "nils": []any{}, "indent": 2.0}}})
 		}
 	}
+	// one document value written in every format in turn and six times in each CycloneDX version: a
+	// dependency edge that repeats a target before naming another, a node with both CPE forms, two
+	// hashes and two identifiers of other kinds (what a serializer reads from maps, or tidies up in
+	// the document itself, shows as an output that depends on what was written before)
+	{
+		dia3 := M{"meta": M{"id": "urn:uuid:1", "version": "1", "name": "dia3", "types": []any{}}, "nl": M{
+			"nodes": []any{M{"id": "app", "type": 0.0, "a": M{"Name": "app", "PrimaryPurpose": []any{1.0}}},
+				M{"id": "lib", "type": 0.0, "a": M{"Name": "lib", "Identifiers": []any{[]any{2.0, "cpe:/a:x:y"}, []any{3.0, "cpe:2.3:a:x:y:*:*:*:*:*:*:*:*"}, []any{1.0, "pkg:npm/lib@1"}, []any{4.0, "gitoid:blob:sha1:ab"}},
+					"Hashes": []any{[]any{2.0, "aa"}, []any{3.0, "bb"}, []any{5.0, "cc"}}}},
+				M{"id": "extra", "type": 0.0, "a": M{"Name": "extra"}}},
+			"edges": []any{M{"ty": 5.0, "src": "app", "tos": []any{"lib", "extra"}}, M{"ty": 10.0, "src": "app", "tos": []any{"lib", "lib", "extra"}},
+				M{"ty": 10.0, "src": "lib", "tos": []any{"extra", "extra"}}},
+			"roots": []any{"app"}}}
+		in3 := func(ff formats.Format) M { return M{"doc": dia3, "nils": []any{}, "indent": 2.0, "fmt": string(ff)} }
+		ops = append(ops, M{"op": "serSeq", "fmt": string(formats.SPDX23JSON), "docs": []any{in3(formats.SPDX23JSON), in3(formats.CDX15JSON), in3(formats.SPDX23JSON),
+			in3(formats.CDX14JSON), in3(formats.CDX13JSON), in3(formats.SPDX23JSON), in3(SPDX3JSON), in3(formats.CDX15JSON)}})
+		for _, ff := range []formats.Format{formats.CDX13JSON, formats.CDX14JSON, formats.CDX15JSON, formats.SPDX23JSON, SPDX3JSON} {
+			ops = append(ops, M{"op": "serSeq", "fmt": string(ff), "docs": []any{in3(ff), in3(ff), in3(ff), in3(ff), in3(ff), in3(ff), in3(ff), in3(ff)}})
+		}
+	}
+	// document types that are there and say nothing, or only describe: alone and after a typed one
+	for _, types := range [][]any{{M{}}, {M{"d": "only a description"}}, {M{"t": 1.0}, M{}}, {M{}, M{"n": "named"}}} {
+		d := enumDoc(func(app, lib, edge M) {})
+		d["meta"].(M)["types"] = types
+		for _, f := range serFormats {
+			ops = append(ops, M{"op": "serSeq", "fmt": string(f), "docs": []any{M{"doc": d, "nils": []any{}, "indent": 2.0}, M{"doc": d, "nils": []any{}, "indent": 2.0}}})
+		}
+	}
 	for i := 0; i < n; i++ {
 		good := g.serDoc()
 		gd := DocOf(good)
